@@ -211,7 +211,9 @@ def rotation_powerloss(variant):
     wd = workdir()
     try:
         db = C.fresh(wd)
-        o, raw, rc = run_fjv(prog, dbdir=db, env_extra=C.shim_env(db, wd), timeout=300)
+        o, raw, rc = run_fjv(prog, dbdir=db, env_extra=C.shim_env(db, wd), timeout=900)
+        if rc == -99 or any(v == "err timeout" for v in o.values()):
+            return dict(problem=None, effective=False, lost=0)       # cut-off run on an overloaded machine
         evs = C.read_log(wd)
         written, synced = synced_extents(evs)
         lost = powerloss_image(db, evs)
@@ -234,17 +236,12 @@ def run(rep, tier, seed, build):
     from common import proof_audit, TRUSTED_BASE
     obl, dis, pproblems = proof_audit("props/C09.v", THEOREMS, build["coq"])
     wc = [x for x in pmap(writer_conformance, [(i, seed) for i in range(40 if tier == "quick" else 600)]) if x]
-    for x in wc[:2]:
-        rep.violation("# C09: journal writer system calls differ from Writer.v\n# implementation: %s\n# model:          %s\n%s\n"
-                      % (x["got"], x["want"], x["prog"]))
     n = 24 if tier == "quick" else 400
     results = pmap(pl_workload, [(i, seed, tier) for i in range(n)])
     rp = pmap(rotation_powerloss, [0] if tier == "quick" else [0, 1, 2], workers=3)
     for x in [x for x in rp if x["problem"]][:1]:
         rep.violation("# C09: %s\n# (shim log -> every *.jnl cut back to its last synced extent -> reopen)\n%s" % (x["problem"], x["prog"]))
     tc = trace_conformance((0, seed))
-    if tc:
-        rep.violation("# C09: journal syscall trace differs from the Writer model for manual persist\n# got:  %s\n# want: %s\n" % (tc[1], tc[2]))
     bad = [r_ for r_ in results if r_["problems"]]
     for r_ in bad[:3]:
         p = r_["problems"][0]
@@ -269,6 +266,14 @@ def run(rep, tier, seed, build):
                         checker_cmd="cd coq && make props/C09.vo (coqc 8.16.1) + Print Assumptions audit", trusted_base=TRUSTED_BASE,
                         programs=n + (40 if tier == "quick" else 600), traces_validated_against_impl=(40 if tier == "quick" else 600),
                         proof_problems=pproblems)
+    # the syscall correspondence with Writer.v: a difference is a violation of the property only if the power-loss adversary
+    # above finds data lost; otherwise the theorems no longer speak about this code and that is reported as such
+    if (wc or tc) and not rep.violations:
+        x = wc[0] if wc else dict(got=tc[1], want=tc[2], prog="(fixed trace scenario: put, put, persist buffer, put, persist data, put, persist all, batches)")
+        rep.violation("# C09: correspondence Writer.v <-> journal writer no longer checks: the write()/fdatasync()/fsync() sequence differs;\n"
+                      "# the power-loss adversary (%d workloads, %d power-loss points, rotation scenario) found no lost durable write\n"
+                      "# implementation: %s\n# model:          %s\n%s\n" % (n, sum(r_["runs"] for r_ in results), x["got"], x["want"], x["prog"]),
+                      suffix="no-failing-input-found")
     if pproblems and not rep.violations:
         rep.violation("# C09: proof obligations no longer check\n" + "\n".join(pproblems) + "\n", suffix="no-failing-input-found")
     rep.assumptions = ["fsync/fdatasync make the data written so far durable (the OS's promise)",
